@@ -52,6 +52,12 @@ class Obs:
         self.self_href = None
         self.problems = []
 
+    @property
+    def reliable(self):
+        """False if the listing itself was inconsistent (mangled or repeated
+        hrefs): content-based oracles of other properties skip it."""
+        return self.exists and not (self.bad_hrefs or self.dups or self.problems)
+
     def fingerprint(self):
         """Everything the properties call 'state' of the collection."""
         return (
